@@ -118,7 +118,18 @@ def _respell(si, hi, s1, s2, nseg, qi, t, pos):
     except ValueError:
         hit('rejected')
         return True
-    t = pick(list(range(9)), t)
+    t = pick(list(range(11)), t)
+    if t >= 9:
+        # a dot segment at the END means "this directory": path/. and path/x/.. are spellings of path/
+        tail = '/.' if t == 9 else '/x/..'
+        p0 = path[:-1] if path.endswith('/') else path
+        try:
+            want = N(scheme + '://' + host + '/' + p0 + '/' + q).url
+            got = N(scheme + '://' + host + '/' + p0 + tail + q).url
+        except ValueError:
+            return True
+        hit('t%d' % t)
+        return got == want
     if t in (6, 8) and u != u.strip():
         return True                                      # surrounding whitespace is stripped: appending to it is not an equivalent spelling
     if t in (3, 4) and pos >= len(segs):
@@ -274,16 +285,16 @@ HARNESSES = [
       doc='for URLs assembled from the pools: N(N(u)) == N(u), parsing N(u) gives back scheme/host/port/path/query, and N(u) is ASCII '
           'without whitespace/C0, lower-case scheme and host, default port omitted, absolute flattened path, upper-case escapes'),
     H('respell', '_respell', 'si: int, hi: int, s1: int, s2: int, nseg: int, qi: int, t: int, pos: int',
-      pre=['0 <= si < %d and 0 <= hi < %d and 0 <= s1 < %d and 0 <= s2 < %d and 0 <= nseg <= 2 and 0 <= qi < %d and 0 <= t <= 8 and 0 <= pos <= 2' % (
+      pre=['0 <= si < %d and 0 <= hi < %d and 0 <= s1 < %d and 0 <= s2 < %d and 0 <= nseg <= 2 and 0 <= qi < %d and 0 <= t <= 10 and 0 <= pos <= 2' % (
           len(_SCHEMES), len(_HOSTS), len(_SEGS), len(_SEGS), len(_QUERIES))],
       parts={'quick': [{'tag': 'hosts', 'fix': _fx(s1=0, s2=0, nseg=1, qi=2, pos=0), 'pre': ['si <= 1']},
                        {'tag': 'paths', 'fix': _fx(si=0, hi=0, qi=0, nseg=2), 'pre': ['t >= 3 and s1 <= 9 and s2 <= 9 and pos <= 1']},
                        {'tag': 'queries', 'fix': _fx(si=2, hi=8, s1=0, s2=0, nseg=1, pos=1)}],
-             'thorough': [{'tag': 't%d' % t, 'fix': _fx(t=t)} for t in range(9)]},
-      timeout={'quick': 280, 'thorough': 2400}, samples=[(0, 0, 0, 0, 1, 0, 2, 0), (1, 4, 0, 1, 2, 2, 4, 1)], need=['t0', 't2', 't4'],
+             'thorough': [{'tag': 't%d' % t, 'fix': _fx(t=t)} for t in range(11)]},
+      timeout={'quick': 280, 'thorough': 2400}, samples=[(0, 0, 0, 0, 1, 0, 2, 0), (1, 4, 0, 1, 2, 2, 4, 1)], need=['t0', 't2', 't4', 't9', 't10'],
       funcs=['wpull/url.py:URLInfo.parse', 'wpull/url.py:flatten_path', 'wpull/url.py:uppercase_percent_encoding'],
       doc='spellings that differ only in scheme/host case, explicit default port, inserted "./", "x/../", "//", an appended fragment, '
-          'lower-case escapes or surrounding whitespace normalise to the same string'),
+          'lower-case escapes, surrounding whitespace, or a trailing "/." or "/x/.." instead of "/", normalise to the same string'),
     H('ipv4_spellings', '_ipv4_spellings', 'o1: int, o2: int, o3: int, o4: int, r1: int, r2: int, r3: int, r4: int, form: int',
       pre=[' and '.join('0 <= %s <= 7' % v for v in ('o1', 'o2', 'o3', 'o4')) + ' and ' + ' and '.join('0 <= %s <= 3' % v for v in ('r1', 'r2', 'r3', 'r4')) + ' and 0 <= form <= 1'],
       parts={'quick': [{'tag': 'dotted', 'fix': _fx(form=0, o3=1, o4=7, r3=0), 'pre': ['r4 <= 1']}, {'tag': 'number', 'fix': _fx(form=1, r2=0, r3=0, r4=0, o2=1)}],
